@@ -162,7 +162,14 @@ static void String_Assign(var self, var obj) {
   }
 #endif
   
-  s->val = realloc(s->val, strlen(val) + 1);
+  /* The source may be this String itself, or lie inside its buffer */
+  size_t n = strlen(val);
+  if (s->val isnt NULL and val >= s->val and val <= s->val + strlen(s->val)) {
+    memmove(s->val, val, n + 1);
+    val = NULL;
+  }
+  
+  s->val = realloc(s->val, n + 1);
   
 #if CELLO_MEMORY_CHECK == 1
   if (s->val is NULL) {
@@ -170,7 +177,7 @@ static void String_Assign(var self, var obj) {
   }
 #endif
 
-  strcpy(s->val, val);
+  if (val isnt NULL) { strcpy(s->val, val); }
 }
 
 static char* String_C_Str(var self) {
@@ -248,7 +255,15 @@ static void String_Concat(var self, var obj) {
   }
 #endif
   
-  s->val = realloc(s->val, strlen(s->val) + strlen(c_str(obj)) + 1);
+  /* The source may be this String itself, or lie inside its buffer, which
+  ** realloc is free to move: remember where, and how long it was */
+  char* val = c_str(obj);
+  size_t n = strlen(s->val);
+  size_t m = strlen(val);
+  bool inside = val >= s->val and val <= s->val + n;
+  size_t offset = inside ? (size_t)(val - s->val) : 0;
+  
+  s->val = realloc(s->val, n + m + 1);
   
 #if CELLO_MEMORY_CHECK == 1
   if (s->val is NULL) {
@@ -256,7 +271,9 @@ static void String_Concat(var self, var obj) {
   }
 #endif
   
-  strcat(s->val, c_str(obj));
+  if (inside) { val = s->val + offset; }
+  memmove(s->val + n, val, m);
+  s->val[n + m] = '\0';
 }
 
 static void String_Resize(var self, size_t n) {
